@@ -49,6 +49,39 @@ def strip_refs(b, ty, depth=0):
     return ty
 
 
+def _narrowed_from(b, l, depth=0, seen=None):
+    """(source type, location) of an integer cast from a wider type on the way to local l (through copies, arithmetic), else None"""
+    seen = seen if seen is not None else set()
+    if l in seen or depth > 8:
+        return None
+    seen.add(l)
+    for d in b.defs().get(l, []):
+        if d[0] != 'assign':
+            continue
+        rv = d[1]['rv']
+        ops = []
+        if rv['k'] == 'cast' and rv['op']['k'] in ('copy', 'move') and str(rv.get('ck', '')).startswith('IntToInt'):
+            sty = b.lty(rv['op']['pl']['l']) if not rv['op']['pl']['p'] else {}
+            dty = b.ty(rv['ty'])
+            if sty.get('k') in ('int', 'uint') and dty.get('k') in ('int', 'uint') and sty.get('bits', 64) > dty.get('bits', 64):
+                return (sty.get('s'), d[1]['loc'])
+            ops = [rv['op']]
+        elif rv['k'] in ('use', 'cast'):
+            ops = [rv['op']]
+        elif rv['k'] == 'binop':
+            ops = [rv['a'], rv['b']]
+        elif rv['k'] == 'unop':
+            ops = [rv['a']]
+        for o in ops:
+            if o['k'] in ('copy', 'move'):
+                base = o['pl']['l']
+                # the result of `x op y` with overflow is a (value, flag) pair: .0 is the value
+                r = _narrowed_from(b, base, depth + 1, seen)
+                if r:
+                    return r
+    return None
+
+
 def is_buf(b, op):
     """operand is a reference to a BytesMut (the stream buffer is only ever reachable by reference: it is a field of the
     pinned stream or the `&mut BytesMut` parameter of Chunker::next); an owned BytesMut temporary is a piece already split off"""
@@ -113,6 +146,34 @@ def run(facts, cg):
     # the chunker modules themselves are always in scope (a helper that is not called yet cannot hide there)
     region |= {b.id for b in facts.bodies.values() if b.id.startswith('bitar::chunker::') and not b.generated}
 
+    # ------------------------------------------------------------------ R-UNTRUSTED(narrowed-arith)
+    # The chunkers and rolling hashes run with parameters an archive declares; validation bounds them from below only (and by
+    # the width of the recorded field from above).  A value that was *narrowed* (usize -> u32) fills the narrow type: an
+    # overflow-checked multiplication or addition on it is a panic for large declared values (F22: RollSum::new multiplied the
+    # window size in u32 with overflow checks, a window of 11772 bytes panics in builds that check).  Wrapping / checked /
+    # saturating operations are calls and carry no such assert.
+    hregion = region | {b.id for b in facts.bodies.values() if b.id.startswith('bitar::rolling_hash::') and not b.generated}
+    n_arith = 0
+    for bid in sorted(hregion):
+        b = facts.bodies[bid]
+        if b.raw.get('from_test'):
+            continue
+        for bi in b.live:
+            t = b.blocks[bi]['term']
+            if t['k'] != 'assert' or t['ak'] not in ('Overflow(Mul)', 'Overflow(Add)'):
+                continue
+            n_arith += 1
+            for o in t['ops']:
+                if o['k'] not in ('copy', 'move'):
+                    continue
+                oty = b.lty(o['pl']['l']) if not o['pl']['p'] else {}
+                if oty.get('bits', 64) > 32:
+                    continue
+                nar = _narrowed_from(b, o['pl']['l'])
+                if nar:
+                    finding('R-UNTRUSTED', b.q, 'narrowed-arith:' + t['ak'], 'an overflow-checked %s at %s works on a value that was narrowed from %s to %d bits at %s: a declared '
+                            'size that fills the narrow type panics here in builds that check for overflow' % (t['ak'], t['loc'], nar[0], oty.get('bits', 32), nar[1]))
+    instances.append({'rule': 'R-UNTRUSTED(narrowed-arith)', 'functions': len(hregion), 'overflow_checked_mul_add_sites': n_arith})
     # ------------------------------------------------------------------ R-TILING
     buf_calls = 0
     consumers = 0
